@@ -4,6 +4,8 @@
 (* Abstract syntax (all of it crosses the TLC <-> Go boundary as JSON):                  *)
 (*   segment / host part : [l |-> "a"]  literal      [v |-> "x"] variable                *)
 (*                         (a server variable also carries its default: [v, d])          *)
+(*                         [mx |-> <<[l |-> "v"], [v |-> "n"]>>]  mixed path segment:    *)
+(*                         variables next to literal text inside one segment ("v{n}")    *)
 (*   template  : [segs |-> <<segment>>, ops |-> <<[m |-> "GET", id |-> "t1GET"]>>        *)
 (*                (, servers |-> <<server>>  -- path-level servers, replacing the        *)
 (*                 document's for this path)]                                            *)
@@ -23,7 +25,10 @@
 (*      | [k |-> "panic" | "hang" | "crash"]                                             *)
 (*                                                                                       *)
 (* Path segments, literals, host labels and variable values are atomic strings: the      *)
-(* specification only ever compares and concatenates them.                               *)
+(* specification only ever compares and concatenates them -- except where a mixed        *)
+(* segment has to be matched against a request segment: there both are looked up in the  *)
+(* character dictionary Cs (checked by an ASSUME to spell the very strings it is keyed   *)
+(* by; a multi-character string that is not in it is a TLC error, never a silent miss).  *)
 (*                                                                                       *)
 (* L1 (contract)  : Failed(doc, req, obs) = set of violated clauses of the statement.    *)
 (* L2 (models)    : MuxObs / LegacyObs -- implementation-shaped models of the two        *)
@@ -33,7 +38,32 @@
 EXTENDS Integers, Sequences, FiniteSets, SequencesExt
 
 IsVar(s) == "v" \in DOMAIN s
-IsLit(s) == ~IsVar(s)
+IsMix(s) == "mx" \in DOMAIN s
+IsLit(s) == "l" \in DOMAIN s
+
+-----------------------------------------------------------------------------
+(* the character dictionary: every multi-character string that may meet a mixed segment *)
+Cs(s) ==
+   IF Len(s) = 0 THEN <<>> ELSE IF Len(s) = 1 THEN <<s>> ELSE
+   CASE s = "ab" -> <<"a", "b">>
+     [] s = "v1" -> <<"v", "1">>
+     [] s = "v2" -> <<"v", "2">>
+     [] s = "vv" -> <<"v", "v">>
+     [] s = "a-" -> <<"a", "-">>
+     [] s = "-b" -> <<"-", "b">>
+     [] s = "a-b" -> <<"a", "-", "b">>
+     [] s = "v1-b" -> <<"v", "1", "-", "b">>
+     [] s = "a-b-v" -> <<"a", "-", "b", "-", "v">>
+     [] s = "files" -> <<"f", "i", "l", "e", "s">>
+     [] s = "report" -> <<"r", "e", "p", "o", "r", "t">>
+     [] s = "report." -> <<"r", "e", "p", "o", "r", "t", ".">>
+     [] s = "report.pdf" -> <<"r", "e", "p", "o", "r", "t", ".", "p", "d", "f">>
+     [] s = "report.txt" -> <<"r", "e", "p", "o", "r", "t", ".", "t", "x", "t">>
+DictStrings == {"ab", "v1", "v2", "vv", "a-", "-b", "a-b", "v1-b", "a-b-v", "files", "report", "report.",
+                "report.pdf", "report.txt"}
+RECURSIVE JoinChars(_)
+JoinChars(cs) == IF Len(cs) = 0 THEN "" ELSE cs[1] \o JoinChars(SubSeq(cs, 2, Len(cs)))
+ASSUME \A s \in DictStrings : JoinChars(Cs(s)) = s /\ \A i \in 1..Len(Cs(s)) : Len(Cs(s)[i]) = 1
 
 -----------------------------------------------------------------------------
 (* rendering: the strings the Go side must have built / must report *)
@@ -41,7 +71,10 @@ RECURSIVE PathStr(_)
 PathStr(p) == IF Len(p) = 0 THEN "" ELSE "/" \o p[1] \o PathStr(SubSeq(p, 2, Len(p)))
 RECURSIVE JoinDot(_)
 JoinDot(p) == IF Len(p) = 0 THEN "" ELSE IF Len(p) = 1 THEN p[1] ELSE p[1] \o "." \o JoinDot(SubSeq(p, 2, Len(p)))
-PartStr(s) == IF IsVar(s) THEN "{" \o s.v \o "}" ELSE s.l
+RECURSIVE PartStr(_)
+PartStr(s) == IF IsVar(s) THEN "{" \o s.v \o "}"
+              ELSE IF IsMix(s) THEN JoinChars([i \in 1..Len(s.mx) |-> PartStr(s.mx[i])])
+              ELSE s.l
 Strs(parts) == [i \in 1..Len(parts) |-> PartStr(parts[i])]
 TemplStr(t) == PathStr(Strs(t.segs))
 
@@ -93,28 +126,73 @@ Residual(s, u) == SubSeq(u.path, Len(s.base) + 1, Len(u.path))
 -----------------------------------------------------------------------------
 (* templates *)
 (* A template matches a path iff the path is the template with every variable replaced   *)
-(* by a non-empty segment value (segments are slash-free by construction).               *)
+(* by a non-empty slash-free value: a variable segment takes a whole non-empty segment,  *)
+(* the variables of a mixed segment take non-empty pieces of it around its literal text. *)
+IsPrefix2(p, cs) == Len(p) <= Len(cs) /\ SubSeq(cs, 1, Len(p)) = p
+RECURSIVE MatchParts(_, _)
+MatchParts(parts, cs) ==
+   IF Len(parts) = 0 THEN Len(cs) = 0
+   ELSE LET rest == SubSeq(parts, 2, Len(parts)) IN
+        IF IsLit(parts[1])
+        THEN LET lc == Cs(parts[1].l) IN IsPrefix2(lc, cs) /\ MatchParts(rest, SubSeq(cs, Len(lc) + 1, Len(cs)))
+        ELSE \E k \in 1..Len(cs) : MatchParts(rest, SubSeq(cs, k + 1, Len(cs)))
+
+SegMatch(seg, x) == IF IsLit(seg) THEN x = seg.l
+                    ELSE IF IsVar(seg) THEN x # ""
+                    ELSE MatchParts(seg.mx, Cs(x))
+
 Matches(t, r) ==
    /\ Len(r) = Len(t.segs)
-   /\ \A i \in 1..Len(r) : IF IsLit(t.segs[i]) THEN r[i] = t.segs[i].l ELSE r[i] # ""
+   /\ \A i \in 1..Len(r) : SegMatch(t.segs[i], r[i])
 
 AllLit(t) == \A i \in 1..Len(t.segs) : IsLit(t.segs[i])
+HasMixedT(t) == \E i \in 1..Len(t.segs) : IsMix(t.segs[i])
+HasMixed(doc) == \E t \in 1..Len(doc.templates) : HasMixedT(doc.templates[t])
 Declared(t, m) == \E j \in 1..Len(t.ops) : t.ops[j].m = m
 OpId(t, m) == t.ops[CHOOSE j \in 1..Len(t.ops) : t.ops[j].m = m].id
 
 ParamVals(ps, name) == {ps[i].v : i \in {j \in 1..Len(ps) : ps[j].n = name}}
 
+(* the variable names of a segment *)
+SegVars(seg) == IF IsVar(seg) THEN {seg.v}
+                ELSE IF IsMix(seg) THEN {seg.mx[i].v : i \in {j \in 1..Len(seg.mx) : IsVar(seg.mx[j])}}
+                ELSE {}
+
 (* substituting the returned parameters into the template gives exactly r *)
+RECURSIVE Subst(_, _)
+Subst(parts, ps) ==       \* the text of a mixed segment under the parameters (each variable has exactly one value)
+   IF Len(parts) = 0 THEN ""
+   ELSE (IF IsLit(parts[1]) THEN parts[1].l ELSE CHOOSE x \in ParamVals(ps, parts[1].v) : TRUE)
+        \o Subst(SubSeq(parts, 2, Len(parts)), ps)
+SegFillOK(seg, ps, x) ==
+   IF IsLit(seg) THEN x = seg.l
+   ELSE IF IsVar(seg) THEN ParamVals(ps, seg.v) = {x}
+   ELSE /\ \A n \in SegVars(seg) : Cardinality(ParamVals(ps, n)) = 1
+        /\ Subst(seg.mx, ps) = x
 FillOK(t, ps, r) ==
    /\ Len(r) = Len(t.segs)
-   /\ \A i \in 1..Len(r) : IF IsLit(t.segs[i]) THEN r[i] = t.segs[i].l
-                           ELSE ParamVals(ps, t.segs[i].v) = {r[i]}
+   /\ \A i \in 1..Len(r) : SegFillOK(t.segs[i], ps, r[i])
 
-BindsEmpty(t, ps) == \E i \in 1..Len(t.segs) : IsVar(t.segs[i]) /\ "" \in ParamVals(ps, t.segs[i].v)
+BindsEmpty(t, ps) == \E i \in 1..Len(t.segs) : \E n \in SegVars(t.segs[i]) : "" \in ParamVals(ps, n)
 
-Binding(t, r) == LET vp == {i \in 1..Len(t.segs) : IsVar(t.segs[i])}
-                     sq == SetToSortSeq(vp, <)
-                 IN [j \in 1..Len(sq) |-> [n |-> t.segs[sq[j]].v, v |-> IF sq[j] <= Len(r) THEN r[sq[j]] ELSE ""]]
+(* the binding a regular-expression matcher returns for a mixed segment: every variable  *)
+(* is greedy, the leftmost one first (gorilla/mux compiles "v{n}" to v(?P<n>[^/]+))      *)
+RECURSIVE BindParts(_, _)
+BindParts(parts, cs) ==
+   IF Len(parts) = 0 THEN <<>>
+   ELSE LET rest == SubSeq(parts, 2, Len(parts)) IN
+        IF IsLit(parts[1]) THEN BindParts(rest, SubSeq(cs, Len(Cs(parts[1].l)) + 1, Len(cs)))
+        ELSE LET ks == {k \in 1..Len(cs) : MatchParts(rest, SubSeq(cs, k + 1, Len(cs)))} IN
+             IF ks = {} THEN <<[n |-> parts[1].v, v |-> ""]>> \o BindParts(rest, <<>>)
+             ELSE LET k == CHOOSE x \in ks : \A y \in ks : y <= x IN
+                  <<[n |-> parts[1].v, v |-> JoinChars(SubSeq(cs, 1, k))]>> \o BindParts(rest, SubSeq(cs, k + 1, Len(cs)))
+SegBinding(seg, x) == IF IsVar(seg) THEN <<[n |-> seg.v, v |-> x]>>
+                      ELSE IF IsMix(seg) THEN BindParts(seg.mx, Cs(x))
+                      ELSE <<>>
+RECURSIVE BindingFrom(_, _, _)
+BindingFrom(t, r, i) == IF i > Len(t.segs) THEN <<>>
+                        ELSE SegBinding(t.segs[i], IF i <= Len(r) THEN r[i] ELSE "") \o BindingFrom(t, r, i + 1)
+Binding(t, r) == BindingFrom(t, r, 1)
 
 -----------------------------------------------------------------------------
 (* L1: the contract.  Failed = {} iff the observation is one the statement allows.       *)
@@ -174,6 +252,15 @@ Failed(doc, req, obs) ==
       (IF mayT = {} /\ obs.kind # "notFound" THEN {"unmatched_url_not_notfound"} ELSE {})
       \cup (IF (\E t \in sureT : decl(t)) /\ ~openLit THEN {"declared_request_not_routed"} ELSE {})
 
+(* The contract per router.  The legacy router documents that it does not handle         *)
+(* variables inside a segment ("/books/{id}.json"): for a document with a mixed segment  *)
+(* nothing is demanded of it (open region) except that it neither panics nor fails with  *)
+(* something that is not a route error.  Everything is demanded of gorillamux.           *)
+FailedFor(router, doc, req, obs) ==
+   IF router = "l" /\ HasMixed(doc)
+   THEN (IF obs.k \notin {"route", "rerr"} THEN {"abnormal_" \o obs.k} ELSE {})
+   ELSE Failed(doc, req, obs)
+
 (* the observations one could possibly expect (used to show the contract is satisfiable) *)
 RouteObs(doc, req, t, sv) ==
    LET tt == doc.templates[t] IN
@@ -197,11 +284,15 @@ Satisfiable(doc, req) == \E o \in Candidates(doc, req) : Failed(doc, req, o) = {
 (* server, one mux route; FindRoute returns the first route that matches, and -- in the  *)
 (* pinned code -- returns "method not allowed" as soon as a route matches in everything  *)
 (* but the method (keepLooking = FALSE; TRUE is the repaired scan).                      *)
-Alphabet == <<"/", "0", "1", "2", "a", "b", "c", "v", "x", "y", "z", "{", "}">>
+Alphabet == <<"-", ".", "/", "0", "1", "2", "a", "b", "c", "d", "e", "f", "g", "h", "i", "j", "k", "l", "m", "n", "o",
+              "p", "q", "r", "s", "t", "u", "v", "w", "x", "y", "z", "{", "}">>
 CharRank(c) == IF \E i \in 1..Len(Alphabet) : Alphabet[i] = c
                THEN CHOOSE i \in 1..Len(Alphabet) : Alphabet[i] = c ELSE 99
-LitChars(l) == CASE l = "ab" -> <<"a", "b">> [] l = "v1" -> <<"v", "1">> [] OTHER -> <<l>>
-PartChars(s) == IF IsVar(s) THEN <<"{", s.v, "}">> ELSE LitChars(s.l)
+RECURSIVE PartChars(_)
+PartChars(s) == IF IsVar(s) THEN <<"{", s.v, "}">>
+                ELSE IF IsMix(s) THEN (IF Len(s.mx) = 0 THEN <<>>
+                                       ELSE PartChars(s.mx[1]) \o PartChars([mx |-> SubSeq(s.mx, 2, Len(s.mx))]))
+                ELSE Cs(s.l)
 RECURSIVE TChars(_)
 TChars(segs) == IF Len(segs) = 0 THEN <<>> ELSE <<"/">> \o PartChars(segs[1]) \o TChars(SubSeq(segs, 2, Len(segs)))
 RECURSIVE LexLess(_, _)
@@ -209,7 +300,9 @@ LexLess(a, b) == IF Len(b) = 0 THEN FALSE
                  ELSE IF Len(a) = 0 THEN TRUE
                  ELSE IF a[1] # b[1] THEN CharRank(a[1]) < CharRank(b[1])
                  ELSE LexLess(SubSeq(a, 2, Len(a)), SubSeq(b, 2, Len(b)))
-NVars(t) == Cardinality({i \in 1..Len(t.segs) : IsVar(t.segs[i])})
+RECURSIVE NVarsFrom(_, _)
+NVarsFrom(t, i) == IF i > Len(t.segs) THEN 0 ELSE Cardinality(SegVars(t.segs[i])) + NVarsFrom(t, i + 1)
+NVars(t) == NVarsFrom(t, 1)          \* strings.Count(path, "}")
 MuxBefore(ta, tb) == \/ NVars(ta) < NVars(tb)
                      \/ NVars(ta) = NVars(tb) /\ LexLess(TChars(tb.segs), TChars(ta.segs))
 MuxOrder(doc) == SetToSortSeq(1..Len(doc.templates), LAMBDA a, b : MuxBefore(doc.templates[a], doc.templates[b]))
